@@ -401,6 +401,30 @@ def decide(prop, cfg, tier, seed, work, args, t0):
                                    rendered=h['detail'][:3000], unit='kani', concrete=h.get('concrete')))
             solver_ms += int(h.get('time_s', 0) * 1000)
 
+    # ---- native exhaustive enumerations (bounded stand-ins for functions outside both verifiers) ----------------------
+    for job in cfg.get('native', []):
+        if tier != 'thorough' and job.get('tier', 'quick') != 'quick':
+            continue
+        scratch = kanirun.make_scratch(work)
+        kanirun.weave(scratch, job['files'])
+        for t in job['tests']:
+            t1 = time.time()
+            rep = kanirun.native_replay(scratch, t['name'], '')
+            dt = round(time.time() - t1, 1)
+            ran_ok = 'test result: ok. 1 passed' in rep['tail']
+            if not rep['failed'] and not ran_ok:
+                raise Inconclusive("native exhaustive check %s did not run: %s" % (t['name'], rep['tail'][-400:]))
+            bounded_checks.append(dict(harness='native:' + t['name'], bound=t.get('bound'), result='failed' if rep['failed'] else 'passed', time_s=dt))
+            if rep['failed']:
+                m = re.search(r"panicked at [^\n]*\n([^\n]*)", rep['tail'])
+                failed.append(dict(obligation='native:' + t['name'], owner=prop, fn=t.get('target', t['name']), kind='native-bounded',
+                                   where=(m.group(1) if m else '')[:300], message=(m.group(1) if m else 'native exhaustive check failed')[:500],
+                                   rendered=rep['tail'], unit='native',
+                                   concrete=dict(harness=t['name'], failed_check='native exhaustive enumeration', input_hex=None,
+                                                 replay_test=t['name'], replayed_natively=True, native_output=rep['tail'],
+                                                 finder_bound=t.get('bound'))))
+        assumptions += job.get('assumptions', [])
+
     # ---- Python WP job (C19) ------------------------------------------------------------------
     for job in cfg.get('pyvc', []):
         pres = pyvc_run.run(job, work)
